@@ -63,6 +63,14 @@ pub fn plan_for(property: &str) -> Option<(&'static str, Vec<PlanItem>)> {
                 PlanItem { family: "metamorphic", run: c09_metamorphic, quick: 1500, thorough: 40000, determinism_check: true },
             ],
         ),
+        "C11" => (
+            "C11",
+            vec![
+                PlanItem { family: "wire_grid", run: crate::fam::direct::direct_wire_grid, quick: 256, thorough: 2560, determinism_check: false },
+                PlanItem { family: "wire_random", run: crate::fam::direct::direct_wire_random, quick: 1000, thorough: 20000, determinism_check: false },
+                PlanItem { family: "emitted", run: c11_emitted, quick: 3000, thorough: 60000, determinism_check: false },
+            ],
+        ),
         "C16" => (
             "C16",
             vec![PlanItem { family: "direct_rtte", run: crate::fam::direct::direct_rtte, quick: 4000, thorough: 40000, determinism_check: false }],
@@ -236,6 +244,24 @@ fn c09_metamorphic(ctx: &CaseCtx) -> CaseReport {
     if ctx.keep_events || !rep.violations.is_empty() {
         rep.events = last_events;
     }
+    rep
+}
+
+/// C11, emitted traffic: every datagram a real socket puts on the wire in a generated duplex
+/// case must be accepted by the independent parser, carry version 1, a payload exactly when it
+/// is ST_DATA, and the connection id owed to its direction.
+fn c11_emitted(ctx: &CaseCtx) -> CaseReport {
+    let mut rep = CaseReport::new(ctx.family, ctx.index, ctx.case_seed);
+    let g = duplex::generate(ctx.case_seed, Profile::General, 60_000);
+    rep.desc = format!("{} plan[{}]", g.cfg.describe(), g.plan_desc);
+    let cfg = g.cfg.clone();
+    let run = duplex::run_duplex(ctx.case_seed, &g.cfg, g.plan);
+    let view = WireView::build(&run.events);
+    let addrs = duplex_addrs(&cfg);
+    mon::c11::check_emitted(&mut rep, &run.events, addrs[0], addrs[1]);
+    rep.nontrivial = rep.counters.get("c11_emitted_datagrams_checked") > 3;
+    let end = run.end_time;
+    finish(&mut rep, ctx, &view, run.events, end);
     rep
 }
 
